@@ -380,7 +380,10 @@ def r13_plane_geometry(ctx, prog, ci, rule="C16-R13"):
                 r2 = concrete.ev(dec[0], env2)
                 t2 = concrete.ev(dec[1], env2)
             except concrete.Unknown as e:
-                raise AnalysisError("%s: %s / %s: %s" % (rule, fwd, inv, e))
+                ctx.unknown_site(rule, f2, "%s / %s not interpreted (%s)" %
+                                 (fwd, inv, e), node=f2.node)
+                bad = None
+                break
             n += 1
             if inv == "sky2pix_ellipse":
                 t2 = math.degrees(t2) if abs(t2) <= 2 * math.pi + 1e-9 and \
@@ -388,6 +391,8 @@ def r13_plane_geometry(ctx, prog, ci, rule="C16-R13"):
             dt = (t2 - t + 180.0) % 360.0 - 180.0
             if abs(r2 - r) > 1e-9 * max(1.0, r) or abs(dt) > 1e-9:
                 bad.append(((r, t), (r2, t2)))
+        if bad is None:
+            continue
         ctx.check(rule, f2, "%s reads back the end point of %s "
                   "(7 sample vectors)" % (inv, fwd), not bad,
                   "a vector of (length, angle) = %s placed by %s comes back "
